@@ -19,10 +19,13 @@ RULE = ("bursts of 1..5 uniquely tagged messages routed back-to-back and across 
         "chooses which parked awaitable completes next, or that one connection never completes; each leaf is a fresh re-execution. Each "
         "connection's output is split by an independent XML splitter and must be exactly the routed messages in routed order; with a "
         "stalled connection the router call and every other connection must still finish within a bounded number of loop rounds. "
-        "non-trivial = a schedule with at least one choice point that had more than one option, or a stalled connection; "
+        "In addition every script over {route one message, one loop iteration, complete a parked awaitable} up to a bounded length "
+        "is executed on a single TCP / client connection, so that routing happens in every one-iteration window around a completion. "
+        "non-trivial = a schedule with at least one choice point that had more than one option, a stalled connection, or a scripted interleaving; "
         "distinct = hash(scenario, choice sequence)")
 ASSUMPTIONS = ["thread-pool hand-offs are awaited on the wall clock (bounded; a timeout makes the run inconclusive, never a violation)"]
-REQUIRED_EVENTS = ["schedules", "choice_points", "outputs_checked", "tcp_scenarios", "tty_scenarios", "client_scenarios", "stalled_connection_runs"]
+REQUIRED_EVENTS = ["schedules", "choice_points", "outputs_checked", "tcp_scenarios", "tty_scenarios", "client_scenarios", "stalled_connection_runs",
+                   "scripted_interleavings"]
 EXHAUSTIVE_NOTE = "all completion orders of the parked writes/flushes/drains for every scenario of the tier, plus every single stalled connection"
 SHARDED = True
 
@@ -88,11 +91,11 @@ def make_message(k):
 class Scenario:
     """conns: list of 'tcp' | 'tty' | 'client'; groups: list of burst sizes; stalled: index or None."""
 
-    def __init__(self, conns, groups, stalled=None):
-        self.conns, self.groups, self.stalled = conns, groups, stalled
+    def __init__(self, conns, groups, stalled=None, script=None):
+        self.conns, self.groups, self.stalled, self.script = conns, groups, stalled, script
 
     def key(self):
-        return (tuple(self.conns), tuple(self.groups), self.stalled)
+        return (tuple(self.conns), tuple(self.groups), self.stalled, self.script)
 
 
 async def execute(ctx, sc, prefix):
@@ -193,9 +196,29 @@ async def execute(ctx, sc, prefix):
             item[2].set()
 
     try:
-        route_group()
         step = 0
         rounds = 0
+        if sc.script:
+            # exact interleaving of routing, single loop iterations and completions:
+            # r = route one message, y = one loop iteration, d = a parked awaitable completes (choice point)
+            groups[:] = [1] * sc.script.count("r")
+            for tok in sc.script:
+                if tok == "r":
+                    route_group()
+                elif tok == "y":
+                    await asyncio.sleep(0)
+                else:
+                    opts = options()
+                    if not opts:
+                        continue
+                    counts.append(len(opts))
+                    ch = prefix[step] if step < len(prefix) else 0
+                    step += 1
+                    if ch >= len(opts):
+                        raise Inconclusive("schedule replay diverged")
+                    release(opts[ch])
+        else:
+            route_group()
         while True:
             await settle()
             opts = options()
@@ -302,11 +325,11 @@ def explore(ctx, sc, max_schedules=None):
             ctx.count("stalled_connection_runs")
         full = prefix + [0] * (len(counts) - len(prefix))
         branching = any(c > 1 for c in counts)
-        ctx.case_fast((sc.key(), tuple(full)), nontrivial=branching or sc.stalled is not None)
+        ctx.case_fast((sc.key(), tuple(full)), nontrivial=branching or sc.stalled is not None or bool(sc.script))
         if bad:
             key, what, out = bad
             ctx.violate(key, f"{what} (scenario {sc.key()}, schedule {full})",
-                        {"conns": sc.conns, "groups": sc.groups, "stalled": sc.stalled, "schedule": full}, {"output_tail": out})
+                        {"conns": sc.conns, "groups": sc.groups, "stalled": sc.stalled, "script": sc.script, "schedule": full}, {"output_tail": out})
             return n
         # children: alternatives at positions >= len(prefix)
         for pos in range(len(counts) - 1, len(prefix) - 1, -1):
@@ -331,6 +354,18 @@ def scenarios(ctx):
     out += [Scenario(["tcp", "tcp"], [2, 2]), Scenario(["tcp", "tty"], [2, 1]), Scenario(["tcp", "tcp", "tcp"], [1]),
             Scenario(["tcp", "tcp", "tcp"], [2]), Scenario(["tcp", "tcp", "tcp"], [3]), Scenario(["tcp", "tty", "client"], [2]),
             Scenario(["tcp", "tcp", "tcp"], [2], stalled=2), Scenario(["tcp", "tty", "tcp"], [2], stalled=1)]
+    # exact interleavings of routing, loop iterations and completions on one connection (no thread pool involved)
+    import itertools
+    maxlen = 7 if not ctx.thorough else 9
+    nr = 3 if not ctx.thorough else 4
+    for L in range(3, maxlen + 1):
+        for toks in itertools.product("ryd", repeat=L):
+            sc_ = "".join(toks)
+            if sc_.count("r") != nr or "d" not in sc_ or sc_[0] != "r" or "yyy" in sc_ or "dd" in sc_:
+                continue
+            out.append(Scenario(["tcp"], [], script=sc_))
+            if L <= maxlen - 1:
+                out.append(Scenario(["client"], [], script=sc_))
     if ctx.thorough:
         out += [Scenario(["tcp", "tcp"], [5]), Scenario(["tcp", "tty"], [5]), Scenario(["client", "tcp"], [5]),
                 Scenario(["tcp", "tcp"], [3, 2]), Scenario(["tcp", "tty"], [2, 2, 1]), Scenario(["tcp", "tcp"], [5], stalled=1),
@@ -349,7 +384,10 @@ def run(ctx):
         for k in kinds:
             ctx.count(f"{k}_scenarios")
         n = explore(ctx, sc, max_schedules=4000 if not ctx.thorough else 200000)
-        ctx.sample({"connections": sc.conns, "bursts": sc.groups, "stalled": sc.stalled, "schedules_enumerated": n})
+        if sc.script:
+            ctx.count("scripted_interleavings")
+        if not sc.script or i % 97 == 0:
+            ctx.sample({"connections": sc.conns, "bursts": sc.groups, "script": sc.script, "stalled": sc.stalled, "schedules_enumerated": n})
         if ctx.enough():
             return
 
@@ -359,7 +397,7 @@ def exhaustive(ctx):
 
 
 def replay(ctx, case):
-    sc = Scenario(case["conns"], case["groups"], case.get("stalled"))
+    sc = Scenario(case["conns"], case["groups"], case.get("stalled"), case.get("script"))
     counts, bad = asyncio.run(execute(ctx, sc, case["schedule"]))
     ctx.case_fast(("replay",))
     ctx.case_fast(("replay2",))
